@@ -109,6 +109,13 @@ struct Cfg {
     /// client/server_expired_connection_buffer of the node configuration (default 128; a port
     /// allocates that many connection slots when it is created)
     expired: usize,
+    /// checked prefix applied by `new_sys` (0 = none). 1 = "stale active request": client 0 sends a
+    /// request, server 0 receives it and KEEPS the active request, the client drops the pending
+    /// response; then the client cycles through its pool of response channels (request, receive,
+    /// drop pending, drop active - the stale active request stays) and sends one more request,
+    /// which is assigned the channel of the abandoned one again
+    #[serde(default)]
+    stage: u8,
 }
 
 impl Cfg {
@@ -363,6 +370,17 @@ impl<S: Service> World<S> {
         if !cfg.clients_first {
             for _ in 0..cfg.init_clients {
                 w.create_client()?;
+            }
+        }
+        if cfg.stage == 1 {
+            let channels = cfg.max_servers * 2 * cfg.a + cfg.l;
+            let mut prefix = vec![Op::SendRequest(0), Op::ReceiveRequest(0), Op::DropPending(0, 0)];
+            for _ in 0..channels - 1 {
+                prefix.extend([Op::SendRequest(0), Op::ReceiveRequest(0), Op::DropPending(0, 0), Op::DropActive(0, 1)]);
+            }
+            prefix.push(Op::SendRequest(0));
+            for op in prefix {
+                w.apply(&op)?;
             }
         }
         Ok(w)
@@ -1415,6 +1433,7 @@ fn base(a: usize, b: usize, ovf_req: bool, ovf_resp: bool, ff: bool) -> Cfg {
         hint: false,
         loans: false,
         expired: 8,
+        stage: 0,
     }
 }
 
@@ -1604,6 +1623,14 @@ fn configs(tier: Tier) -> Vec<(Cfg, Plan)> {
             c.max_clients = 2;
             c.init_clients = 2;
         }
+        add(c, 5, 6);
+    }
+    // stale active request + channel pool cycled (see Cfg::stage), with and without the disconnect hint
+    for (i, r) in [OA8[0], OA8[3], OA8[5]].into_iter().enumerate() {
+        // two active requests per client: the stale one and the one of the current round
+        let mut c = row(2, r);
+        c.hint = i != 1;
+        c.stage = 1;
         add(c, 5, 6);
     }
     // loan and send as separate steps
